@@ -230,6 +230,15 @@ impl fmt::Display for Redir {
     }
 }
 
+/// Tests whether the operand of a redirection ends with an unquoted backslash.
+fn operand_ends_with_backslash(redir: &Redir) -> bool {
+    match redir.body.operand().units.last() {
+        Some(Unquoted(Literal('\\'))) => true,
+        Some(Tilde { name, .. }) => name.ends_with('\\'),
+        _ => false,
+    }
+}
+
 impl fmt::Display for SimpleCommand {
     fn fmt(&self, f: &mut fmt::Formatter<'_>) -> fmt::Result {
         let i1 = self.assigns.iter().map(|x| x as &dyn fmt::Display);
@@ -258,6 +267,16 @@ impl fmt::Display for SimpleCommand {
             write!(f, "{}", i3.chain(i1).chain(i2).format(" "))
         } else if !self.assigns.is_empty() || !self.first_word_is_keyword() {
             write!(f, "{}", i1.chain(i2).chain(i3).format(" "))
+        } else if let Some((last_redir, other_redirs)) = self.redirs.split_last()
+            && !other_redirs.is_empty()
+            && operand_ends_with_backslash(last_redir)
+        {
+            // The redirection that ends with an unquoted backslash ended the
+            // input, so it must remain last. The other redirections still keep
+            // the first word from being mistaken for a keyword.
+            let other_redirs = other_redirs.iter().map(|x| x as &dyn fmt::Display);
+            let last_redir = std::iter::once(last_redir as &dyn fmt::Display);
+            write!(f, "{}", other_redirs.chain(i2).chain(last_redir).format(" "))
         } else {
             // We usually display the words before the redirections, but when
             // the first word is a keyword and there are no assignments, we
